@@ -104,6 +104,8 @@ pub struct Report {
     pub distinct: Vec<u64>,
     pub samples: Vec<serde_json::Value>,
     pub found: Vec<Found>,
+    #[serde(default)]
+    pub digest: u64,
 }
 
 fn phase_list(prop: &str, tier: Tier) -> Vec<(String, u64)> {
@@ -152,6 +154,7 @@ pub fn cmd_worker(prop: &str, tier: Tier, seed: u64, w: u64, n: u64, resume_afte
     let mut n_found = 0usize;
     let out = std::io::stdout();
     let mut skipping = resume_after.is_some();
+    let mut unit_digest: u64 = 0;
     for (phase, units) in phase_list(prop, tier) {
         let mut u = w;
         while u < units {
@@ -171,7 +174,16 @@ pub fn cmd_worker(prop: &str, tier: Tier, seed: u64, w: u64, n: u64, resume_afte
                 let _ = o.flush();
             }
             let mut ctl = UnitCtl::new(prop, &phase, u);
+            let (ev0, st0) = (ctx.stats.evaluations, ctx.stats.steps);
             let r = guarded(|| run_any_unit(prop, &phase, u, seed, tier, &mut ctx, &mut ctl));
+            unit_digest = unit_digest.wrapping_add(crate::prng::fnv_str(&format!(
+                "{}/{}/{}/{}/{:?}",
+                phase,
+                u,
+                ctx.stats.evaluations - ev0,
+                ctx.stats.steps - st0,
+                ctl.found.iter().map(|f| f.fails.iter().map(|x| x.fingerprint()).collect::<Vec<_>>()).collect::<Vec<_>>()
+            )));
             if let Err(p) = r {
                 // a panic that escaped the family's own guards is a harness error
                 ctx.fails.clear();
@@ -205,6 +217,7 @@ pub fn cmd_worker(prop: &str, tier: Tier, seed: u64, w: u64, n: u64, resume_afte
         distinct: ctx.stats.distinct.into_iter().collect(),
         samples: ctx.stats.samples,
         found: vec![],
+        digest: unit_digest.wrapping_add(ctx.stats.log_digest),
     };
     let mut o = out.lock();
     let _ = writeln!(o, "R {}", serde_json::to_string(&rep).unwrap());
@@ -435,6 +448,7 @@ pub fn cmd_check(prop: &str, tier: Tier, seed: u64, workers: u64) -> i32 {
     for r in reports.into_iter().flatten() {
         stats.evaluations += r.evaluations;
         stats.steps += r.steps;
+        stats.log_digest = stats.log_digest.wrapping_add(r.digest);
         for (k, v) in r.faults {
             *stats.faults.entry(k).or_insert(0) += v;
         }
@@ -610,6 +624,8 @@ fn write_evidence(prop: &str, tier: Tier, seed: u64, st: &Stats, violations: usi
             "explanation": m.explanation,
             "runs_per_hour": per_hour,
             "logical_steps": st.steps,
+            "execution_digest": format!("{:016x}", st.log_digest),
+            "execution_digest_note": "order-independent sum over all units of hash(unit id, evaluations, steps, fingerprints found) plus a hash of every device event (device, kind, position, bytes asked/moved, error) of every simulated world; equal digests across runs, worker counts and environments = same executions",
             "simulated_time_note": "the code under test reads no clock; simulated time is the number of device operations executed (logical_steps)",
             "faults_fired": st.faults,
             "reach": st.reach,
